@@ -9,22 +9,24 @@ Import ListNotations.
 Local Open Scope N_scope.
 Ltac Zify.zify_post_hook ::= Z.div_mod_to_equations.
 
-Lemma wf_text_cells_u32 a : wf_archive a -> fits32 a -> Forall (fun p : N * bytes => fst p < U32) (a_text a).
+Lemma wf_text_cells_u32 a : wf_archive a -> size a < U32 -> Forall (fun p : N * bytes => fst p < U32) (a_text a).
 Proof.
-  intros WF FIT. apply Forall_forall. intros [c s] Hin. cbn [fst].
+  intros WF SZ. apply Forall_forall. intros [c s] Hin. cbn [fst].
   assert (Hc : In c (cells a)). { unfold cells. apply in_or_app. right. apply in_or_app. left. apply in_map_iff. exists (c, s). auto. }
-  pose proof (wf_cells_in a WF c Hc) as Hle. unfold fits32, ser_bound in FIT. lia.
+  pose proof (wf_cells_in a WF c Hc) as Hle. lia.
 Qed.
 
+(* no size hypothesis: a canonical image EXISTS only when it fits the 32-bit sizes of the format ([canonical] and serialize
+   both reject larger contents, fix 524d15f) *)
 Theorem canonical_file_reserializes : forall kf a f,
-  wf_archive a -> a_cstrs a = [] -> fits32 a ->
-  canonical_size kf (a_endian a) (a_data a) (isort key_leb (a_ptrs a)) (isort key_leb (a_text a)) (isort key_leb (a_labels a)) < U32 ->
+  wf_archive a -> a_cstrs a = [] ->
   canonical kf (a_endian a) (a_data a) (isort key_leb (a_ptrs a)) (isort key_leb (a_text a)) (isort key_leb (a_labels a)) = Ok f ->
   exists a', from_bytes (a_endian a) f = Ok a' /\ forall m', serialize_k kf m' a' = Ok f.
 Proof.
-  intros kf a f WF Hcs FIT Hsz Hcan.
-  rewrite <- (serialize_is_canonical_maps kf Checked a (wf_label_keys a WF) Hcs (wf_text_cells_u32 a WF FIT) Hsz) in Hcan.
-  destruct (serialize_conforms kf Checked a WF FIT) as (f0 & Ef0 & _ & Hc). rewrite Hcan in Ef0. inversion Ef0; subst f0.
+  intros kf a f WF Hcs Hcan.
+  assert (SZ : size a < U32) by (exact (canonical_ok_data_small _ _ _ _ _ _ _ Hcan)).
+  rewrite <- (serialize_is_canonical_maps kf Checked a (wf_label_keys a WF) Hcs (wf_text_cells_u32 a WF SZ)) in Hcan.
+  destruct (serialize_ok_conforms kf Checked a f WF Hcan) as (_ & Hc).
   destruct (parser_correct _ _ _ Hc) as (a' & Ep & _). exists a'. split; [exact Ep|].
-  intros m'. exact (reserialize_identity kf Checked m' a f a' WF Hcs FIT Hcan Ep).
+  intros m'. exact (reserialize_identity kf Checked m' a f a' WF Hcs Hcan Ep).
 Qed.
